@@ -145,14 +145,19 @@ EXTRA_SEARCH = {
 # ---------------------------------------------------------------------------------------------------
 # C05 / C09 / C10: range notation (Verus for token values / ranges / iterator, Kani for strings)
 from . import p_kani
+import re
 
 TOKEN_ALLOWED = [DERIVE_ALLOWED, r'^external_body pub fn into_iter']
 TOK_MEANING = ['tok_meaning_pockets', 'tok_meaning_rank_pairs', 'tok_meaning_card_pair', 'tok_weight_carried', 'tok_weight_single_rank_pair', 'tok_weight_plus_rank_pair', 'tok_weight_span_rank_pair', 'tok_weight_plus_pocket', 'tok_weight_span_pocket', 'tok_weight_card_pair', 'tok_ok_reachable']
+TOK_WEIGHTED = ['tok_wf_weighted_pocket', 'tok_wf_weighted_plus_pocket', 'tok_wf_weighted_span_pocket', 'tok_wf_weighted_rank_pair', 'tok_wf_weighted_plus_rank_pair', 'tok_wf_weighted_span_rank_pair', 'tok_wf_weighted_card_pair']
 TOK_TOTAL_Q = ['tok_total_parse_6', 'tok_total_parse_6_multibyte', 'tok_total_parse_9', 'tok_total_parse_9_multibyte', 'tok_ok_reachable']
 TOK_TOTAL_T = TOK_TOTAL_Q + ['tok_total_parse_12', 'tok_total_parse_12_multibyte']
 
 
-def _k_token(name, names_q, names_t=None, bounded=None):
+def _k_token(name, names_q, names_t=None, bounded=None, not_mine=None):
+    """not_mine: regex over the text of a failed assertion that belongs to ANOTHER property (total_parse states kind_wf
+    and weight_unit as two obligations; C09 owns the first only): a harness whose failed checks are all of that kind
+    does not count as failed for this property -- the owning property's check reports it"""
     def part(tier):
         names = names_t if (tier == 'thorough' and names_t) else names_q
         if not names:
@@ -160,6 +165,13 @@ def _k_token(name, names_q, names_t=None, bounded=None):
         def runner():
             r = p_kani.run_token(names, 3600 if tier == 'quick' else 14400)
             r['bounded'] = bounded or []
+            if not_mine and r['failed']:
+                lines = [l for l in r['fail_detail'].splitlines() if l.startswith('Failed Checks:')]
+                if lines and all(re.search(not_mine, l) for l in lines):
+                    r['bounded'] = r['bounded'] + ['obligations of another property failed and are not counted here (%s): %s' % (not_mine, ', '.join(r['failed']))]
+                    r['cbmc_checks'] -= r['cbmc_checks_failed']
+                    r['cbmc_checks_failed'] = 0
+                    r['failed'] = []
             return r
         return multi.kani_part(name, runner)
     return part
@@ -175,7 +187,7 @@ def _k_card(name, names, bounded=None):
     return part
 
 
-STR_BOUND_Q = 'strings: every ASCII string of <= 9 bytes, and every such string with the two-byte character "é" at any offset (quick); <= 12 bytes (thorough). Longer inputs differ only in the digit run of the weight.'
+STR_BOUND_Q = 'strings: every ASCII string of <= 9 bytes, and every such string with the two-byte character "é" at any offset (quick); <= 12 bytes (thorough). Beyond the bound only longer weight digit runs and longer ill-formed texts remain; for C10 every token shape (all ranks / suits) with weight texts :D, :D.D, :D.DD is covered separately by the tok_wf_weighted_* harnesses.'
 TOKEN_ASSUME = [
     'Kani harnesses run on a scratch copy in which every `Regex::new(r"...")` call site of the CURRENT source is replaced by a DFA generated from that literal (extract/dfa.py; cross-checked against Python\'s re on ~778k strings per run) -- regex::Regex itself is not verified',
     'parse_probability is stubbed by an OVER-approximation of a correctly rounded f32::from_str on the weight grammar [01](\\.[0-9]+)?: "0"/"0.00" -> 0.0; "0.<nonzero>" -> any f32 in [0,1] (symbolic, fixed per run, since the parser reads the weight twice); "1"/"1.00" -> 1.0; "1.<nonzero within 7 digits>" -> any f32 in [1+EPSILON, 2); "1.<nonzero later>" -> 1.0 or 1+EPSILON. Correct rounding of f32::from_str is assumed (documented behaviour of std); parse_probability\'s own 7 lines (strip the colon, f32::from_str, default 1.0) are not under the harness but pinned by a fingerprint: a change voids the abstraction and hands the decision to the failing-input search',
@@ -209,7 +221,7 @@ FMT_ALLOWED = [DERIVE_ALLOWED, r'^external_body pub fn (into_iter|f32_eq|f32_ne|
 
 MULTI['C09'] = dict(
     parts=[_k_card('CARD-STR', ['c09_rank_suit_card_from_str_4', 'c09_cardpair_from_str_6'], [STR_BOUND_Q]),
-           _k_token('TOKEN-STR', TOK_TOTAL_Q, TOK_TOTAL_T, [STR_BOUND_Q]),
+           _k_token('TOKEN-STR', TOK_TOTAL_Q, TOK_TOTAL_T, [STR_BOUND_Q], not_mine=r'weight_unit'),
            _v('token', TOKEN_ALLOWED), _v('range', RANGE_ALLOWED), _v('iter', ITER_ALLOWED), _v('fmt', FMT_ALLOWED), _v('list', LIST_ALLOWED)],
     assumptions=TOKEN_ASSUME + [
         'Verus (unit FMT): the token-building prefix of Display for HandRange (D3: everything before `let mut res = f.write_str(..)`) has no panic path for any range: its nine unwrap()s are discharged from the run-state invariant "a run is open only at a rank pair that is in the map"; the tail (joining the own Display of the tokens with commas through core::fmt::Formatter) is NOT covered',
@@ -228,11 +240,12 @@ MULTI['C09'] = dict(
     search=[['parse-search', '{seed}', '{n}', 'c09']], search_n={'quick': 20000, 'thorough': 200000})
 
 MULTI['C10'] = dict(
-    parts=[_k_token('TOKEN-STR', TOK_TOTAL_Q, TOK_TOTAL_T, [STR_BOUND_Q]),
+    parts=[_k_token('TOKEN-STR', TOK_TOTAL_Q + TOK_WEIGHTED, TOK_TOTAL_T + TOK_WEIGHTED, [STR_BOUND_Q]),
            _k_card('F32', ['c10_f32_product_unit_interval']),
            _v('token', TOKEN_ALLOWED), _v('iter', ITER_ALLOWED), _v('list', LIST_ALLOWED)],
     assumptions=TOKEN_ASSUME + LIST_ASSUME + [
         'Kani (bounded strings): Ok(t) ==> token_wf(t): weight in [0,1] (under the parse_probability abstraction: accepted tokens carry the parsed value, values above 1 are rejected), SingleCardPair has two different cards, spans ordered',
+        'Kani (tok_wf_weighted_*, complete over ranks / suits): for EVERY one of the seven token shapes with any ranks and suits, followed by any weight text of the forms :D, :D.D, :D.DD (D any ASCII digit; all abstraction classes 0, (0,1], 1 and above 1 are reached), Ok(t) ==> token_wf(t) -- no shape lets a weight above 1 through. The all-strings harnesses reach a weight above 1 only on bodies of <= bound - 4 bytes (":1.5" is four bytes; the span shapes are 5 and 7 bytes long), these harnesses close that gap for well-formed bodies (seeded change seeded7/b_1 passed the 9-byte harnesses)',
         'Verus (unit TOKEN): every entry of the expansion carries the token\'s weight; lemma_token_distinct: every combo of expand_combos(t) has two different cards',
         'Kani (complete, binary32): a, b in [0,1] ==> a*b in [0,1] and 1.0*a == a; Verus (unit ITER): a showdown\'s probability is the left fold of f32 products of the chosen weights (f32_mul uninterpreted there); lemma_prob_unit / lemma_run_probabilities: if every weight of every range is in [0,1] then so is the probability of every showdown of a run -- induction over the fold, with the Kani fact imported as axiom_unit_interval_mul / axiom_unit_interval_one (the only link between the two engines)',
         'Verus (unit ITER): lemma_legal_distinct: a yielded deal has 5+2n pairwise different cards',
